@@ -6885,6 +6885,15 @@ func (c *linkerContext) generateIsolatedHash(chunk *chunkInfo, channel chan []by
 		hashWriteLengthPrefixed(hash, bytes)
 	}
 
+	// Also include the external legal comments in the hash. The legal comments
+	// file is named after the chunk just like the source map, so the hash must
+	// change if the legal comments change even if the chunk data doesn't change.
+	// Otherwise two builds could emit different legal comments files with the
+	// same name.
+	if len(chunk.externalLegalComments) > 0 {
+		hashWriteLengthPrefixed(hash, chunk.externalLegalComments)
+	}
+
 	// Also include the source map data in the hash. The source map is named the
 	// same name as the chunk name for ease of discovery. So we want the hash to
 	// change if the source map data changes even if the chunk data doesn't change.
